@@ -25,7 +25,6 @@ NOTES = ("All checks rebuild /repo's current working tree (go test -overlay adds
          "Genuine defects found on the pinned tree were repaired by 'fix:' commits in /repo and are listed in KNOWN_FINDINGS.txt.")
 
 NOT_CLAIMED = {
-    "C08": "engine (memcheck taint sanitizer) under construction in this session; not yet registered",
     "C09": "engine (ptrace single-step tracer) under construction in this session; not yet registered",
 }
 
@@ -138,5 +137,13 @@ CHECKS = {
         "rule": "stress under the Go race detector: 16..64 goroutines x mixed Encrypt/Decrypt/Seal/Open/forged-Open on ONE Block and ONE AEAD with key, nonce, aad, message and ciphertext buffers shared and write-protected (PROT_READ, so assembly writes fault), both paths, GOMAXPROCS 16/4/2, Gosched between ops; 16..48 goroutines x SignHashed/VerifyHashed/DerivePublic/GenerateKey/Sign+Verify/sm3 sharing 4 key sets; every concurrent result compared with the serially precomputed model result (objects are immutable, so this is the linearizability condition); round keys snapshot before/after; race reports deduplicated by repository frames; overlap measured with an atomic in-flight counter (no overlap = inconclusive); a class is (path, workers, GOMAXPROCS)",
         "assumptions": ["the race detector sees Go-side accesses only; assembly writes are observed through page protection of the shared inputs, not of the cipher object itself (compared by snapshot)", "porcupine is not used: there is no mutable shared object whose history needs a linearizability search", ARM64_NOTE],
         "units": [gt("sm4-race", "./sm4/", "TestVerifC17SM4", race=True), gt("sm2-race", "./sm2/", "TestVerifC17SM2", race=True)],
+    },
+    "C08": {
+        "level": "exploration",
+        "engine_name": "memcheck taint sanitizer",
+        "technique": "runtime monitoring: Valgrind/memcheck as a dynamic taint sanitizer (secrets marked undefined by client requests) over the real SM2 code, reports judged offline against verdict-site and deny rules",
+        "rule": "each case = one primitive or entry point executed under memcheck with its secret marked undefined: Level 1 (strict, primitives in isolation: ConstantTimeCmp l=0..64, both SetBytes, field/scalar arithmetic, both Fermat inversions, MultiSelect widths 15..127 all window values, all four comb schemes, ScalarMult lengths 1..40, point add/double/select, safe Bytes/GetAffineX, TestPrivateKey) allows reports only at verdict sites lexically outside every loop (ranges computed from the current source with go/parser); Level 2 (SignHashed, GenerateKey, DerivePublic, one taint source per run) applies deny rules V1 Euclid/division, V2 report inside curve/field/table arithmetic, V3 exit inside a comparison loop; two planted gadgets must be reported in every process; a class is a tainted scenario",
+        "assumptions": ["memcheck tracks the data flow along the executed path for all secret values at once; paths not executed are not covered", "memcheck build uses go1.26.8/amd64 with -tags valgrind (the default toolchain binary is not the one observed)", "instruction-level timing (variable-latency multiply/divide) is invisible", "reports in glue code outside the operations the statement enumerates (math/big finishing of s, the *_Unsafe affine conversions, rejection-loop verdicts) are counted in the evidence but are not violations (DESIGN.md C08)"],
+        "units": [{"name": "memcheck", "engine": "engine_memcheck"}],
     },
 }
